@@ -314,6 +314,55 @@ static inline Plan gen_stream(Rng rng) {
     return G.p;
 }
 
+// C05/C06: the packet protocol of doc/using.dox over a lossy, duplicating, reordering transport between two hosts
+static inline Plan gen_packets(Rng rng) {
+    Gen G(rng);
+    int kind = CTR_KINDS[G.r.below(3)]; unsigned bs = kind_bs(kind);
+    bool tweaked = kind != MCTR && G.r.chance(1, 2);
+    bool by_tweak = (tweaked || kind == MCTR) && G.r.chance(1, 2);        // sequence number in the tweak (second usage pattern) or in the counter (first)
+    unsigned ksize = is_mantis(kind) ? 16 : bs * G.r.range(1, tweaked ? 2 : 3);
+    Bytes key = G.r.bytes(ksize); int rounds = G.r.range(5, 8);
+    int snd = G.add_slot(kind), rcv = G.add_slot(kind);
+    int ca = G.r.below(3), cb = G.r.below(3);
+    G.init(snd, ca); G.init(rcv, cb);
+    G.setkey(snd, ksize, tweaked, rounds, 1); G.p.ops.back().a = key;
+    G.setkey(rcv, ksize, tweaked, rounds, 1); G.p.ops.back().a = key;
+    int npk = 2 + G.r.below(5);
+    struct Pk { Op setup1, setup2; bool two; int enc_index; unsigned len; };
+    std::vector<Pk> sent;
+    uint32_t seq = G.r.chance(1, 3) ? 0xFFFFFFFDu : (uint32_t)G.r.next();
+    for (int j = 0; j < npk; ++j, ++seq) {
+        Pk pk; pk.two = false;
+        Bytes sq(bs, 0); sq[0] = (uint8_t)(seq >> 24); sq[1] = (uint8_t)(seq >> 16); sq[2] = (uint8_t)(seq >> 8); sq[3] = (uint8_t)seq;
+        if (by_tweak) {
+            Op t; t.code = OP_SETTWEAK; t.size = bs; t.a = sq; pk.setup1 = t;
+            Op c; c.code = OP_SETCTR; c.size = 0; c.flags = F_NULLA; pk.setup2 = c; pk.two = true;
+        } else { Op c; c.code = OP_SETCTR; c.size = bs; c.a = sq; pk.setup1 = c; }
+        Op a = pk.setup1; a.slot = snd; a.place = G.rand_place(); G.p.ops.push_back(a);
+        if (pk.two) { Op b = pk.setup2; b.slot = snd; G.p.ops.push_back(b); }
+        pk.len = G.r.chance(1, 6) ? G.r.below(1200) : G.r.below(3 * G.batch_of(G.g[snd]) + 8);
+        G.enc(snd, pk.len); G.p.ops.back().flags &= ~F_INPLACE; pk.enc_index = (int)G.p.ops.size() - 1;
+        sent.push_back(pk);
+    }
+    // the transport: drop, duplicate, reorder
+    std::vector<int> wire;
+    for (int j = 0; j < npk; ++j) { if (G.r.chance(1, 6)) continue; wire.push_back(j); if (G.r.chance(1, 5)) wire.push_back(j); }
+    for (size_t i = wire.size(); i > 1; --i) if (G.r.chance(1, 2)) std::swap(wire[i - 1], wire[G.r.below((uint32_t)i)]);
+    for (int j : wire) {
+        const Pk &pk = sent[j];
+        Op a = pk.setup1; a.slot = rcv; a.place = G.rand_place(); G.p.ops.push_back(a);
+        if (pk.two) { Op b = pk.setup2; b.slot = rcv; G.p.ops.push_back(b); }
+        unsigned done = 0; int frags = 0; G.g[rcv].since_reset = 0;
+        while (done < pk.len && frags < 30) {
+            unsigned n = G.data_len(G.g[rcv], pk.len - done); if (n == 0) n = 1;
+            Op &o = G.emit(OP_ENC, rcv); o.size = n; o.flags |= F_CHAIN; o.src = pk.enc_index; o.expect = pk.enc_index; o.srcoff = done; if (G.r.chance(1, 3)) o.flags |= F_INPLACE;
+            G.g[rcv].since_reset += n; done += n; ++frags;
+        }
+        if (G.r.chance(1, 4)) { unsigned half = G.r.below(40); if (half) { Op &o = G.emit(OP_ENC, rcv); o.size = half; o.a = G.r.bytes(half); } }   // junk after the packet: leaves keystream in the buffer
+    }
+    return G.p;
+}
+
 // C06: one free history, replayed on every host
 static inline Plan gen_xhost(Rng rng, bool with_invalid) {
     Gen G(rng);
@@ -502,7 +551,7 @@ static inline Plan gen_buffers(Rng rng) {
 static inline Plan gen_mixture(Rng rng, uint64_t run) {
     switch (run % 9) {
     case 8: return gen_failinit(rng, rng.s % 100000);
-    case 0: return gen_stream(rng);
+    case 0: return (rng.s & 1) ? gen_stream(rng) : gen_packets(rng);
     case 1: return gen_tweak(rng);
     case 2: return gen_keylen(rng, rng.s % 100000);
     case 3: return gen_inverse(rng);
